@@ -60,7 +60,8 @@ pub struct SimConfig {
     #[serde(default)]
     pub crash_max: u32,
     /// Disk faults: fail the k-th (1-based) write to a regular file (any
-    /// process) with ENOSPC / the k-th read from a regular file with EIO.
+    /// process) with ENOSPC / the k-th and every later read from a regular
+    /// file with EIO.
     #[serde(default)]
     pub fail_write_at: Option<u32>,
     #[serde(default)]
@@ -284,7 +285,8 @@ impl SimHook for SimCtl {
             }
             let k = self.file_read_count.get() + 1;
             self.file_read_count.set(k);
-            if self.cfg.fail_read_at == Some(k) {
+            // (the device is gone: this read and every later one fail)
+            if self.cfg.fail_read_at.is_some_and(|at| k >= at) {
                 self.count("eio");
                 self.fault();
                 self.record(pid.0, "eio", k as i64, fd.0 as i64, "");
